@@ -398,6 +398,9 @@ pub struct Environment<E: Effect> {
     // Effect backend and resource management
     effect_backend: Option<Box<dyn EffectBackend<E = E>>>,
     resource_ownership: HashMap<ResourceId, ProcessId>,
+    // Processes that have terminated (`ProcessExited`). They own nothing: what they owned was
+    // closed when they terminated, and a resource handed to them later is closed on arrival.
+    exited_processes: HashSet<ProcessId>,
     // Processes started through `start_process`: they are persistent, so a successful result
     // means "sleeping until resumed", not "terminated".
     persistent_processes: HashSet<ProcessId>,
@@ -418,6 +421,7 @@ impl<E: Effect> Environment<E> {
             next_process_id: 0,
             effect_backend: None,
             resource_ownership: HashMap::new(),
+            exited_processes: HashSet::new(),
             persistent_processes: HashSet::new(),
         }
     }
@@ -1026,6 +1030,7 @@ impl<E: Effect> Environment<E> {
             Event::ProcessResults { awaiter, results } => {
                 self.handle_process_results(awaiter, results)
             }
+            Event::ProcessExited { process_id } => self.handle_process_exited(process_id),
             Event::ResultResponse {
                 request_id,
                 result,
@@ -1184,6 +1189,14 @@ impl<E: Effect> Environment<E> {
         Ok(())
     }
 
+    /// A process has terminated, awaited or not: it can never act again, so every resource it
+    /// still owns is closed now.
+    fn handle_process_exited(&mut self, process_id: ProcessId) -> Result<(), EnvironmentError> {
+        self.exited_processes.insert(process_id);
+        self.cleanup_process_resources(process_id);
+        Ok(())
+    }
+
     fn handle_spawn(
         &mut self,
         caller: ProcessId,
@@ -1277,6 +1290,11 @@ impl<E: Effect> Environment<E> {
     ) -> Result<(), EnvironmentError> {
         // Transfer ownership of any resources in the message to the target process
         self.transfer_resource_ownership(&message, target);
+        // A terminated process will never receive the message: what it carries is closed at once
+        // rather than staying open, owned by a process that no longer exists.
+        if self.exited_processes.contains(&target) {
+            self.cleanup_process_resources(target);
+        }
 
         let worker_id = self
             .process_router
